@@ -615,7 +615,7 @@ public:
     i.tolerances["auto-nearest"] = "|final - nearest bound| <= 2 * constraint precision (1e-12) + 1e-15; closed bounds exact";
     return i;
   }
-  long defaultRuns(Tier t) const override { return t == QUICK ? 150000 : 3000000; }
+  long defaultRuns(Tier t) const override { return t == QUICK ? 250000 : 3000000; }
 
   // systematic prefix: every order type x flag combination x {construct, setValue, setConstraint}
   long enumCount(Tier) const override { return 14 * 4 * 3 * 3; }
